@@ -14,7 +14,7 @@ Proof. unfold iavg. f_equal. lia. Qed.
 Lemma favg_swap x y z w : favg [x; y; z; w] = favg [z; w; x; y].
 Proof.
   destruct x as [x|], y as [y|], z as [z|], w as [w|]; unfold favg; cbn [fdefined flat_map app length qsum fold_right];
-    try reflexivity; f_equal; apply Qred_complete; ring.
+    try reflexivity; f_equal; apply Qred_complete; unfold Qdiv; ring.
 Qed.
 
 Lemma avg4_swap_rows a b c d : avg4 a b c d = avg4 c d a b.
@@ -49,10 +49,13 @@ Proof.
   - split; [|split].
     + split; [intros _; apply fdefined_nil; exact E | reflexivity].
     + intros q H; discriminate.
-    + intros q Hq. apply fdefined_nil in E. specialize (E _ Hq). discriminate.
+    + intros q Hq. pose proof (proj1 (fdefined_nil l) E _ Hq) as X. discriminate.
   - split; [|split].
-    + split; [discriminate|]. intros H. apply fdefined_nil in H. congruence.
-    + intros q H. injection H as <-. split; [discriminate|]. apply Qred_correct.
+    + split; [discriminate|]. intros H. apply (proj2 (fdefined_nil l)) in H. congruence.
+    + intros q H. split; [discriminate|].
+      assert (Hq : Qred (qsum (d :: ds) / inject_Z (Z.of_nat (length (d :: ds)))) = q).
+      { exact (f_equal (fun o => match o with Some x => x | None => q end) H). }
+      rewrite <- Hq. apply Qred_correct.
     + intros q Hq. discriminate.
 Qed.
 
@@ -161,7 +164,8 @@ Lemma update_all_px u k : forall (l : list entry) b bf,
   forall R C, ipx bf R C = fold_left (qpx u k R C) l (ipx b R C).
 Proof.
   induction l as [|e l IH]; intros b bf Hk Hh Hw HF H.
-  - cbn in H. injection H as <-. repeat split; auto. intros e c [].
+  - cbn in H. injection H as <-. split; [exact Hh|]. split; [exact Hw|]. split; [reflexivity|].
+    split; [intros e0 c0 []|]. intros; reflexivity.
   - inversion HF as [|e' l' He Hl]; subst.
     destruct e as [[oy ox] [[sy sx] oc]]. cbn [map snd update_all] in H.
     destruct oc as [c|].
@@ -171,13 +175,14 @@ Proof.
         as (A1 & A2 & A3 & A4 & A5 & A6 & A7).
       destruct (IH b1 bf Hk A4 A5 Hl H) as (B1 & B2 & B3 & B4 & B5).
       split; [exact B1|]. split; [exact B2|]. split; [congruence|]. split.
-      * intros e c' [<-|Hin] Hc'.
+      * intros e0 c' [<-|Hin] Hc'.
         -- cbn in Hc'. injection Hc' as <-. auto.
-        -- rewrite <- A6. apply (B4 e c' Hin Hc').
+        -- rewrite <- A6. apply (B4 e0 c' Hin Hc').
       * intros R C. rewrite B5. cbn [fold_left qpx]. rewrite A7. reflexivity.
     + destruct (IH b bf Hk Hh Hw Hl H) as (B1 & B2 & B3 & B4 & B5).
-      repeat split; auto.
-      intros e c' [<-|Hin] Hc'; [discriminate|]. apply (B4 e c' Hin Hc').
+      split; [exact B1|]. split; [exact B2|]. split; [exact B3|]. split.
+      * intros e0 c' [<-|Hin] Hc'; [discriminate|]. apply (B4 e0 c' Hin Hc').
+      * intros R C. rewrite B5. reflexivity.
 Qed.
 
 Lemma masked_px_maskable m : masked_px (maskable m) = masked_px m.
@@ -193,7 +198,11 @@ Lemma half_lo k R : 0 <= R < k -> R / k = 0 /\ R mod k = R.
 Proof. intros H. split; [apply Z.div_small | apply Z.mod_small]; lia. Qed.
 
 Lemma half_hi k R : 0 < k -> k <= R < 2 * k -> R / k = 1 /\ R mod k = R - k.
-Proof. intros Hk H. split; nia. Qed.
+Proof.
+  intros Hk H. split.
+  - symmetry. apply (Z.div_unique R k 1 (R - k)); lia.
+  - symmetry. apply (Z.mod_unique R k 1 (R - k)); lia.
+Qed.
 
 Definition offsets (bu : bool) (k : Z) : list (Z * Z) :=
   if bu then [(k, 0); (k, k); (0, 0); (0, k)] else [(0, 0); (0, k); (k, 0); (k, k)].
@@ -215,11 +224,50 @@ Qed.
 Definition dims_ok (cs : list (option img)) : Prop :=
   forall ch, In (Some ch) cs -> 0 <= ih ch /\ 0 <= iw ch.
 
+Definition b_init (m0 : mode) (k : Z) : img :=
+  clear (make_maskable_buffer m0 (2 * k) (2 * k) (fun _ _ => masked_px m0)).
+
+Lemma four_entries u k m0 o0 o1 o2 o3 s0 s1 s2 s3 c0 c1 c2 c3 bf :
+  0 < k -> dims_ok [c0; c1; c2; c3] ->
+  slice_view (2 * k) (fst s0) = Some (mkView (fst o0) 1 k) -> slice_view (2 * k) (snd s0) = Some (mkView (snd o0) 1 k) ->
+  slice_view (2 * k) (fst s1) = Some (mkView (fst o1) 1 k) -> slice_view (2 * k) (snd s1) = Some (mkView (snd o1) 1 k) ->
+  slice_view (2 * k) (fst s2) = Some (mkView (fst o2) 1 k) -> slice_view (2 * k) (snd s2) = Some (mkView (snd o2) 1 k) ->
+  slice_view (2 * k) (fst s3) = Some (mkView (fst o3) 1 k) -> slice_view (2 * k) (snd s3) = Some (mkView (snd o3) 1 k) ->
+  update_all u (b_init m0 k) [(s0, c0); (s1, c1); (s2, c2); (s3, c3)] = Some bf ->
+  ih bf = 2 * k /\ iw bf = 2 * k /\ imode bf = maskable m0 /\
+  (forall ch, In (Some ch) [c0; c1; c2; c3] ->
+              ih ch = k /\ iw ch = k /\ maskable (imode ch) = maskable m0) /\
+  forall R C, ipx bf R C =
+              fold_left (qpx u k R C) [(o0, (s0, c0)); (o1, (s1, c1)); (o2, (s2, c2)); (o3, (s3, c3))]
+                        (masked_px m0).
+Proof.
+  intros Hk Hd A0 B0 A1 B1 A2 B2 A3 B3 H.
+  set (l := [(o0, (s0, c0)); (o1, (s1, c1)); (o2, (s2, c2)); (o3, (s3, c3))] : list entry).
+  assert (D : forall oc, In oc [c0; c1; c2; c3] ->
+                         match oc with Some c => 0 <= ih c /\ 0 <= iw c | None => True end).
+  { intros [c|] Hin; [apply Hd; exact Hin | exact I]. }
+  assert (HF : Forall (entry_ok k) l).
+  { unfold l. destruct o0, o1, o2, o3, s0, s1, s2, s3; cbn [fst snd] in *.
+    repeat constructor; cbn [entry_ok]; repeat split; try assumption; apply D; cbn; auto. }
+  change [(s0, c0); (s1, c1); (s2, c2); (s3, c3)] with (map snd l) in H.
+  destruct (update_all_px u k l (b_init m0 k) bf Hk eq_refl eq_refl HF H) as (X1 & X2 & X3 & X4 & X5).
+  split; [exact X1|]. split; [exact X2|]. split; [rewrite X3; reflexivity|]. split.
+  - intros ch Hin.
+    assert (exists e, In e l /\ snd (snd e) = Some ch) as (e & He & Hs).
+    { unfold l. cbn [In] in Hin. destruct Hin as [E|[E|[E|[E|[]]]]]; subst.
+      - exists (o0, (s0, Some ch)). split; [cbn [In]; auto|reflexivity].
+      - exists (o1, (s1, Some ch)). split; [cbn [In]; auto|reflexivity].
+      - exists (o2, (s2, Some ch)). split; [cbn [In]; auto|reflexivity].
+      - exists (o3, (s3, Some ch)). split; [cbn [In]; auto 6|reflexivity]. }
+    destruct (X4 e ch He Hs) as (Y1 & Y2 & Y3). repeat split; auto.
+  - intros R C. rewrite X5. unfold b_init; cbn [clear make_maskable_buffer imode ipx].
+    replace (clear_px (maskable m0)) with (masked_px m0) by (destruct m0; reflexivity). reflexivity.
+Qed.
+
 (* the buffer handed to the merger, in terms of the display-orientation mosaic *)
 Lemma merge_buffer u f k c0 c1 c2 c3 m0 bf :
   0 < k -> dims_ok [c0; c1; c2; c3] ->
-  update_all u (clear (make_maskable_buffer m0 (2 * k) (2 * k) (fun _ _ => masked_px m0)))
-             (combine (slices_for f k) [c0; c1; c2; c3]) = Some bf ->
+  update_all u (b_init m0 k) (combine (slices_for f k) [c0; c1; c2; c3]) = Some bf ->
   ih bf = 2 * k /\ iw bf = 2 * k /\ imode bf = maskable m0 /\
   (forall ch, In (Some ch) [c0; c1; c2; c3] ->
               ih ch = k /\ iw ch = k /\ maskable (imode ch) = maskable m0) /\
@@ -228,41 +276,20 @@ Lemma merge_buffer u f k c0 c1 c2 c3 m0 bf :
                                      (if bottom_up f then 2 * k - 1 - R else R) C.
 Proof.
   intros Hk Hd H.
-  set (b0 := clear (make_maskable_buffer m0 (2 * k) (2 * k) (fun _ _ => masked_px m0))) in *.
-  set (l := combine (offsets (bottom_up f) k) (combine (slices_for f k) [c0; c1; c2; c3])).
-  assert (El : map snd l = combine (slices_for f k) [c0; c1; c2; c3]).
-  { unfold l, slices_for, offsets. destruct (bottom_up f); reflexivity. }
-  assert (HF : Forall (entry_ok k) l).
-  { pose proof (sl_lo_view k Hk) as Lo. pose proof (sl_hi_view k Hk) as Hi.
-    assert (D : forall oc, In oc [c0; c1; c2; c3] ->
-                           match oc with Some c => 0 <= ih c /\ 0 <= iw c | None => True end).
-    { intros [c|] Hin; [apply Hd; exact Hin | exact I]. }
-    unfold l, slices_for, offsets, slices_opposite, slices_matching.
-    destruct (bottom_up f); cbn [combine];
-      repeat constructor; cbn [entry_ok]; repeat split; try assumption; apply D; cbn; auto. }
-  rewrite <- El in H.
-  destruct (update_all_px u k l b0 bf Hk eq_refl eq_refl HF H) as (B1 & B2 & B3 & B4 & B5).
-  assert (Hm : forall ch, In (Some ch) [c0; c1; c2; c3] ->
-                          ih ch = k /\ iw ch = k /\ maskable (imode ch) = maskable m0).
-  { intros ch Hin.
-    assert (exists e, In e l /\ snd (snd e) = Some ch) as (e & He & Hs).
-    { unfold l, slices_for, offsets, slices_opposite, slices_matching.
-      destruct (bottom_up f); cbn [combine]; cbn [In] in Hin;
-        destruct Hin as [E|[E|[E|[E|[]]]]]; subst;
-        eexists; (split; [|reflexivity]); cbn [In]; auto 6. }
-    destruct (B4 e ch He Hs) as (X1 & X2 & X3). repeat split; auto.
-    unfold b0 in X3. cbn [clear make_maskable_buffer imode] in X3. symmetry; exact X3. }
-  split; [exact B1|]. split; [exact B2|]. split; [rewrite B3; reflexivity|]. split; [exact Hm|].
-  intros R C HR HC. rewrite B5.
-  assert (E0 : ipx b0 R C = masked_px m0).
-  { unfold b0; cbn [clear make_maskable_buffer imode ipx]. destruct m0; reflexivity. }
-  rewrite E0.
-  assert (Hmk : forall ch, In (Some ch) [c0; c1; c2; c3] -> masked_px m0 = masked_px (imode ch)).
-  { intros ch Hin. apply maskable_masked_eq. symmetry. apply (Hm ch Hin). }
-  assert (Hih : forall ch, In (Some ch) [c0; c1; c2; c3] -> ih ch = k) by (intros ch Hin; apply (Hm ch Hin)).
-  unfold l, slices_for, offsets, slices_opposite, slices_matching, mosaic_of, mosaic_val_gen, disp.
-  destruct (bottom_up f); cbn [combine fold_left qpx].
+  pose proof (sl_lo_view k Hk) as Lo. pose proof (sl_hi_view k Hk) as Hi.
+  unfold slices_for in H.
+  destruct (bottom_up f).
   - (* bottom-up storage: opposite table *)
+    unfold slices_opposite in H; cbn [combine] in H.
+    destruct (four_entries u k m0 (k, 0) (k, k) (0, 0) (0, k)
+                (sl_hi k, sl_lo k) (sl_hi k, sl_hi k) (sl_lo k, sl_lo k) (sl_lo k, sl_hi k) c0 c1 c2 c3 bf Hk Hd
+                Hi Lo Hi Hi Lo Lo Lo Hi H) as (X1 & X2 & X3 & Hm & X5).
+    split; [exact X1|]. split; [exact X2|]. split; [exact X3|]. split; [exact Hm|].
+    intros R C HR HC. rewrite X5.
+    assert (Hmk : forall ch, In (Some ch) [c0; c1; c2; c3] -> masked_px m0 = masked_px (imode ch)).
+    { intros ch Hin. apply maskable_masked_eq. symmetry. apply (Hm ch Hin). }
+    assert (Hih : forall ch, In (Some ch) [c0; c1; c2; c3] -> ih ch = k) by (intros ch Hin; apply (Hm ch Hin)).
+    unfold mosaic_of, mosaic_val_gen, disp. cbn [fold_left qpx].
     destruct (Z_lt_ge_dec R k) as [HRk|HRk]; destruct (Z_lt_ge_dec C k) as [HCk|HCk].
     + destruct (half_hi k (2 * k - 1 - R) Hk ltac:(lia)) as [-> ->].
       destruct (half_lo k C ltac:(lia)) as [-> ->].
@@ -301,6 +328,15 @@ Proof.
         rewrite (Hih x1) by (cbn; auto); rewrite (Hmk x1) by (cbn; auto);
         f_equal; f_equal; lia.
   - (* top-down storage: matching table *)
+    unfold slices_matching in H; cbn [combine] in H.
+    destruct (four_entries u k m0 (0, 0) (0, k) (k, 0) (k, k)
+                (sl_lo k, sl_lo k) (sl_lo k, sl_hi k) (sl_hi k, sl_lo k) (sl_hi k, sl_hi k) c0 c1 c2 c3 bf Hk Hd
+                Lo Lo Lo Hi Hi Lo Hi Hi H) as (X1 & X2 & X3 & Hm & X5).
+    split; [exact X1|]. split; [exact X2|]. split; [exact X3|]. split; [exact Hm|].
+    intros R C HR HC. rewrite X5.
+    assert (Hmk : forall ch, In (Some ch) [c0; c1; c2; c3] -> masked_px m0 = masked_px (imode ch)).
+    { intros ch Hin. apply maskable_masked_eq. symmetry. apply (Hm ch Hin). }
+    unfold mosaic_of, mosaic_val_gen, disp. cbn [fold_left qpx].
     destruct (Z_lt_ge_dec R k) as [HRk|HRk]; destruct (Z_lt_ge_dec C k) as [HCk|HCk].
     + destruct (half_lo k R ltac:(lia)) as [-> ->]. destruct (half_lo k C ltac:(lia)) as [-> ->].
       change (Z.to_nat (0 + 2 * 0)) with 0%nat. cbn [nth].
